@@ -106,6 +106,38 @@ def bounded(ctx):
                     viol.append(dict(name="typing_%s" % label, what="%s: record >> %d reports %s = %r, the unrotated record %r (record %r)" % (
                         label, r, diff[0], obs.get(diff[0]), ref[diff[0]], s[:60]), case=dict(cls=label, record=s, k=r), expected=ref, observed=obs))
                     break
+    # (1b) records the class REFUSES although its structure occurs exactly once (a further recognition site inside the
+    # matched stretch: signature-typed classes, whose fixed overhang letters keep the occurrence unique): the refusal,
+    # too, is the same at every rotation
+    sig = [(l_, c_) for (l_, c_) in classes if isinstance(getattr(c_, "signature", NotImplemented), tuple)]
+    rng2 = random.Random(ctx.seed + 17)
+    for (label, cls) in (rng2.sample(sig, min(len(sig), 8)) if ctx.tier == "quick" else sig):
+        site = be.enzyme_geometry(cls.cutter)[0]
+        for s0 in be.class_records(cls, rng2, count=1, run_range=(8, 14)):
+            ref0 = be.observe_entity(cls(CircularRecord(Seq(s0), id="r")))
+            if ref0["valid"] is not True or not ref0.get("target"):
+                continue
+            tgt = ref0["target"]
+            at = (s0 + s0).upper().find(tgt.upper())
+            if at < 0:
+                continue
+            mid = (at + len(tgt) // 2) % len(s0)
+            for extra in (site, gen.rc(site)):
+                s = s0[:mid] + extra + s0[mid:]
+                rx = cls._get_regex().regex
+                if sum(1 for j_ in range(len(s)) if rx.match(s + s, j_, j_ + len(s))) != 1:
+                    continue        # outside the hypothesis: the structure occurs more than once
+                ref = be.observe_entity(cls(CircularRecord(Seq(s), id="r")))
+                for r in range(1, len(s)):
+                    evals += 1
+                    obs = be.observe_entity(cls(CircularRecord(Seq(s[-r:] + s[:-r]), id="r")))
+                    distinct.add((label, "extra-site", r))
+                    if obs.get("valid") != ref.get("valid") or (ref.get("valid") is True and obs != ref):
+                        viol.append(dict(name="refusal_%s" % label, what="%s: a record with a further %s site inside the matched stretch is %s, rotated by %d it is %s" % (
+                            label, extra, "accepted" if ref.get("valid") is True else "refused (%s)" % (ref.get("error") or ref.get("valid"),), r,
+                            "accepted" if obs.get("valid") is True else "refused (%s)" % (obs.get("error") or obs.get("valid"),)),
+                                         case=dict(cls=label, record=s, k=r), expected=ref, observed=obs))
+                        break
     # (2) assembly products under rotation of every participant
     from Bio.Restriction import BsaI
     Mod = type("BModule", (core.Entry,), dict(cutter=BsaI))
